@@ -1092,7 +1092,7 @@ pub fn apply_fault(s: &str, f: &Fault) -> String {
                 b.extend(chars[k + 1..].iter());
             }
         }
-        "subst" | "bitflip" => {
+        "subst" | "bitflip" | "caseflip" => {
             b.extend(chars[..k].iter());
             if let Some(c) = f.ch {
                 b.push(c);
@@ -1294,6 +1294,12 @@ pub fn corpus() -> Vec<String> {
         "{\"GTD\":-1}".into(),
         "{\"GTD\":18446744073709551616}".into(),
     ];
+    // bracket / separator confusions around every list-carrying format
+    for head in ["PriceLevel:price=100", "OrderQueue:orders=", "MatchResult:order_id=1;remaining_quantity=1;is_complete=true;transactions=Transactions:", "Transactions:"] {
+        for tail in ["];orders=[", "]orders=[", "[];orders=[", "];orders=[]", "]];orders=[[", ";orders=[];orders=[", "];filled_order_ids=[", "[;", "[,", "[,]", "[]]", "[[]", "],[", "=[", "=]", ";;", ";=;", "==", ":]:["] {
+            v.push(format!("{head}{tail}"));
+        }
+    }
     v.push("[".repeat(10_000));
     v.push(format!("MatchResult:filled_order_ids={}", "[".repeat(5_000)));
     v.push(format!("PriceLevel:price=1;orders=[{}", "(".repeat(5_000)));
